@@ -20,10 +20,75 @@ F14 = "C36:restart:reservation-leak-on-reset"
 
 # ------------------------------------------------------------------------------------------ generator
 
+def gen_stale_resend(rng, mode):
+    """Scripted scenario with random parameters: a stale resend request whose range has an already acknowledged chunk
+    strictly inside it.  One-chunk messages M0..Mk-1 of a->b go out in separate datagrams; some before and some after
+    Mj are lost, the last one overtakes Mj; the receiver asks for [0..k-2] again, then gets Mj and acknowledges it;
+    the sender sees the ack of Mj and the (now stale) resend request in the same goWrite iteration.  Acks and resend
+    requests are dropped / delayed / reordered independently of the data."""
+    nt = rng.choice([2, 3, 4])
+    a = rng.randrange(nt - 1)
+    b = rng.randrange(a + 1, nt)
+    k = rng.randrange(4, 9)
+    n_ = lambda size: bytes([0x6e, a | (b << 4), size])
+    w_ = lambda x: bytes([0x77, x])
+    e_ = lambda x: bytes([0x65, x])
+    t_ = lambda x, tid: bytes([0x74, x | (tid << 4)])
+    cmds, pos = [], []
+
+    def take(x):  # index of datagram x in the simulator's array (removal = swap with the last one)
+        i = pos.index(x)
+        pos[i] = pos[-1]
+        pos.pop()
+        return i
+
+    for i in range(k):
+        cmds += [n_(rng.choice([4, 4, 4, 8])), w_(a)]
+        pos.append(i)
+    last = k - 1
+    j = rng.randrange(1, k - 2)
+    others = [x for x in range(k) if x not in (j, last)]
+    lost = [x for x in others if rng.random() < 0.8]
+    if not any(x < j for x in lost):
+        lost.append(rng.choice([x for x in others if x < j]))
+    if not any(x > j for x in lost):
+        lost.append(rng.choice([x for x in others if x > j]))
+    for x in sorted(set(lost), key=lambda _: rng.random()):
+        cmds.append(bytes([0x6c, b, take(x)]))
+    for x in [x for x in others if x not in lost]:
+        if rng.random() < 0.5:
+            cmds += [bytes([0x72, b, take(x)]), e_(b)]
+    # the last message overtakes Mj; the receiver notices the holes and asks for them
+    cmds += [bytes([0x72, b, take(last)]), e_(b), w_(b), t_(b, 2), w_(b)]
+    if rng.random() < 0.3:
+        cmds += [t_(b, 2), w_(b)]            # a second, identical request
+    cmds += [t_(b, 1), w_(b)]                # the pending ack timer goes off (acks went out with the request)
+    # now the late Mj arrives and is acknowledged
+    cmds += [bytes([0x72, b, take(j)]), e_(b), t_(b, 1), w_(b), w_(b)]
+    # the sender reads what came back, in some order, possibly losing or duplicating one of the datagrams
+    back = [bytes([0x72, a, rng.randrange(4)]) for _ in range(rng.randrange(2, 5))]
+    if rng.random() < 0.15:
+        back.insert(0, bytes([rng.choice([0x6c, 0x64]), a, rng.randrange(3)]))
+    cmds += back + [e_(a)] * rng.randrange(2, 5)
+    if rng.random() < 0.2:
+        cmds.append(t_(a, 0))
+    cmds += [w_(a)] * rng.randrange(1, 4)
+    # a little random activity afterwards
+    for _ in range(rng.randrange(0, 12)):
+        x = rng.choice([a, b])
+        cmds.append(rng.choice([w_(x), e_(x), bytes([0x72, x, rng.randrange(4)]), t_(x, rng.randrange(3))]))
+    if mode == "r" and rng.random() < 0.3:
+        cmds.insert(rng.randrange(len(cmds)), t_(a, 3))
+    return cmds, "stale-resend"
+
+
 def gen_run(rng, mode, quick):
     """One command string (list of commands, each a bytes object), mostly valid and structured."""
     nt = rng.choice([2, 2, 3, 3, 4, 5, 8, 16])
-    profile = rng.choice(["mixed", "mixed", "lossy", "dups", "pressure", "pressure", "reorder", "burst", "junk"])
+    profile = rng.choice(["mixed", "mixed", "lossy", "dups", "pressure", "pressure", "reorder", "burst", "junk",
+                          "small", "small", "stale-resend", "stale-resend"])
+    if profile == "stale-resend":
+        return gen_stale_resend(rng, mode)
     n_cmds = rng.randrange(10, 140 if quick else 400)
     w = {"n": 4, "w": 7, "r": 7, "e": 5, "t": 3, "d": 1, "l": 1}
     if profile == "lossy":
@@ -35,6 +100,11 @@ def gen_run(rng, mode, quick):
         w["r"] = 5
     elif profile == "burst":
         w["n"] = 10
+    elif profile == "small":
+        # many one-chunk messages written one by one, lossy in both directions, resend-request timers fire often:
+        # acks and resend requests get lost, delayed and reordered independently of the data
+        nt = rng.choice([2, 2, 3])
+        w = {"n": 6, "w": 9, "r": 8, "e": 7, "t": 6, "d": 1, "l": 3}
     kinds = list(w)
     weights = [w[k] for k in kinds]
     sink = nt - 1
@@ -59,12 +129,20 @@ def gen_run(rng, mode, quick):
                 d = sink
                 a = rng.choice(senders)
                 size = rng.choice([252, 252, 248, 200, 128, 64, 4])
+            elif profile == "small":
+                a = rng.randrange(max(1, nt - 1))
+                d = rng.randrange(a + 1, nt)
+                size = rng.choice([4, 4, 4, 8, 12])
             else:
                 d = rng.randrange(nt) if rng.random() < 0.2 else rng.randrange(a, nt)
                 size = rng.choice([rng.randrange(256), rng.randrange(256), 4, 8, 28, 32, 56, 60, 252, 255, 0])
             cmds.append(bytes([0x6e, a | (d << 4), size]))
+            if profile == "small" and rng.random() < 0.7:
+                cmds.append(bytes([0x77, a]))   # its own datagram
         elif k == "t":
             timers = [0, 0, 1, 1, 2, 3] if mode == "r" else [0, 0, 1, 1, 2]
+            if profile == "small":
+                timers = timers + [2, 2, 1]
             tid = rng.choice(timers)
             if mode != "r" and rng.random() < 0.05:
                 tid = rng.randrange(3, 16)  # ignored by the simulator without restarts
